@@ -26,11 +26,12 @@ var solvers = []solverSpec{
 }
 
 type solveResult struct {
-	status string
-	solver string
-	secs   float64
-	output string
-	all    map[string]string
+	status   string
+	solver   string
+	secs     float64
+	output   string
+	all      map[string]string
+	disagree bool
 }
 
 func firstLine(s string) string {
@@ -88,7 +89,17 @@ func runPortfolioCtx(parent context.Context, file string, timeoutS int, needAll 
 			best = &aa
 			if !needAll {
 				cancel()
+			} else {
+				// solver agreement (thorough tier): the others get a grace period
+				grace := time.Duration(2*a.secs*float64(time.Second)) + 5*time.Second
+				if grace > 30*time.Second {
+					grace = 30 * time.Second
+				}
+				time.AfterFunc(grace, cancel)
 			}
+		}
+		if best != nil && (a.status == "sat" || a.status == "unsat") && a.status != best.status {
+			res.disagree = true
 		}
 		if best == nil && (a.status == "unknown" || a.status == "timeout" || a.status == "error") {
 			if res.output == "" || a.status != "error" {
@@ -98,7 +109,9 @@ func runPortfolioCtx(parent context.Context, file string, timeoutS int, needAll 
 			}
 		}
 	}
-	if best != nil {
+	if best != nil && res.disagree {
+		res.status, res.solver, res.output, res.secs = "disagree", "portfolio", fmt.Sprintf("the solvers disagree: %v\n%s", res.all, best.out), best.secs
+	} else if best != nil {
 		res.status, res.solver, res.output, res.secs = best.status, best.solver, best.out, best.secs
 	} else {
 		res.secs = time.Since(start).Seconds()
